@@ -1300,8 +1300,27 @@ func C12(c *Ctx) {
 					r.OK("A2.panic-guard", key, pos(c, in), "the call cannot panic here: "+class)
 					continue
 				}
+				if os.Getenv("MCDEBUG") == "c12sig" {
+					fmt.Fprintln(os.Stderr, "c12sig", key, "=>", strings.Join(panicSiteSigs(c, f, call, api), " || "))
+				}
 				// 2. otherwise it must be in the reviewed table (keyed by function, API and ordinal)
 				reason, listed := streamPanicReviewed[key]
+				if !listed {
+					// the same reviewed call in another place: identified by what it is applied to on every route
+					sigs := panicSiteSigs(c, f, call, api)
+					all := len(sigs) > 0
+					for _, sg := range sigs {
+						if rs, ok := streamPanicReviewedSig[sg]; ok {
+							reason = rs
+						} else {
+							all = false
+						}
+					}
+					if all {
+						r.OK("A10.panic-api", key, pos(c, in), "reviewed: "+reason)
+						continue
+					}
+				}
 				if !listed || strings.HasPrefix(reason, "guard:") {
 					detail := "unreviewed call " + e.String()
 					if listed {
@@ -1368,9 +1387,48 @@ func panicGuard(c *Ctx, f *ssa.Function, call *ssa.Call, e *ir.Expr, kind string
 	w := c.W
 	switch kind {
 	case "flowRate>0":
-		return w.Guarded(f, call, func(p ir.Pred) bool {
+		if w.Guarded(f, call, func(p ir.Pred) bool {
 			return cmpIs(p, ">", func(a *ir.Expr) bool { return a.Op == "param" }, func(b *ir.Expr) bool { return b.Op == "const" && b.Name == "0" })
-		}, 0)
+		}, 0) {
+			return true
+		}
+		// the division extracted into a helper handed the divisor: every call site of the helper stands under
+		// divisor > 0 (or != 0, for an unsigned one), the divisor taken in that caller's terms
+		if len(e.Args) < 2 {
+			return false
+		}
+		core := func(x *ir.Expr) *ir.Expr {
+			for i := 0; i < 6 && x != nil; i++ {
+				x = stripConvE(x)
+				if x.Op == "call" && len(x.Args) == 1 && (strings.HasSuffix(x.Name, "NewDecFromInt") || strings.HasSuffix(x.Name, "NewIntFromUint64") || strings.HasSuffix(x.Name, "NewInt") || strings.HasSuffix(x.Name, "NewDec")) {
+					x = x.Args[0]
+					continue
+				}
+				break
+			}
+			return x
+		}
+		div := core(e.Args[1])
+		if div == nil || !isParamPath(div) {
+			return false
+		}
+		callers := w.Callers(f)
+		if len(callers) == 0 {
+			return false
+		}
+		for _, ed := range callers {
+			cs, ok := ed.Site.(ssa.CallInstruction)
+			if !ok {
+				return false
+			}
+			d2 := core(w.ArgSubst(cs, f, div))
+			isD := func(a *ir.Expr) bool { return core(a).String() == d2.String() }
+			zero := func(b *ir.Expr) bool { return b.Op == "const" && b.Name == "0" }
+			if !w.Guarded(cs.Parent(), cs, func(p ir.Pred) bool { return cmpIs(p, ">", isD, zero) || cmpIs(p, "!=", isD, zero) }, 1) {
+				return false
+			}
+		}
+		return true
 	case "deposit>claim":
 		if len(e.Args) != 2 {
 			return false
@@ -1645,3 +1703,56 @@ func sourceSignature(c *Ctx, e *ir.Expr) string {
 	})
 	return strings.Join(sortedKeys(set), ";")
 }
+
+// panicSiteSigs: what a panicking call is applied to, for every way the stream handlers (and the stream messages'
+// ValidateBasic) reach it: "<api>|<sources of the arguments, in the root's terms>". It identifies the call by its
+// meaning rather than by the function it is written in.
+func panicSiteSigs(c *Ctx, f *ssa.Function, call *ssa.Call, api string) []string {
+	w := c.W
+	tup := &ir.Expr{Op: "tuple"}
+	for _, a := range call.Common().Args {
+		tup.Args = append(tup.Args, w.ExprOf(a))
+	}
+	roots := append([]*ssa.Function{}, w.Roots["MSG:stream"]...)
+	for _, g := range w.Roots["MSGIFACE:ValidateBasic"] {
+		if ir.ModuleOf(g) == "stream" {
+			roots = append(roots, g)
+		}
+	}
+	set := map[string]bool{}
+	for _, root := range roots {
+		if root == f {
+			set[api+"|"+sourceSignature(c, w.ExpandKeep(tup, 6, calculators))] = true
+			continue
+		}
+		for _, up := range w.OriginsUpTo(f, tup, root, 8) {
+			set[api+"|"+sourceSignature(c, w.ExpandKeep(up.E, 6, calculators))] = true
+		}
+	}
+	return sortedKeys(set)
+}
+
+// calculators: the schedule arithmetic of the stream types package (CalculateDuration, CalculateAmountToClaim,
+// CalculateValidatorFee ...) — the vocabulary a panic site's arguments are described in; constructors, key structs
+// and other plumbing are expanded.
+func calculators(f *ssa.Function) bool {
+	return ir.TypesVocabulary(f) && strings.HasPrefix(f.Name(), "Calculate")
+}
+
+// reviewed panicking calls by meaning: "<api>|<argument sources>" -> reason. A call that was moved into another
+// function (or whose enclosing function was renamed) is the same reviewed call; a call applied to anything else is not.
+var streamPanicReviewedSig = map[string]string{
+	"types.NewCoins|msg.Deposit":                              "top-up deposit validated positive by ValidateBasic and the handler",
+	"address.MustLengthPrefix|msg.Sender":                     "addresses come from AccAddressFromBech32, which rejects more than 255 bytes",
+	"address.MustLengthPrefix|msg.Receiver":                   "addresses come from AccAddressFromBech32, which rejects more than 255 bytes",
+	"types.NewDecCoinFromCoin|msg.Deposit":                    "deposit is a valid non-negative coin (validated at creation / top-up)",
+	"types.NewDecCoinFromCoin|stored:StreamKeyPrefix.Deposit": "deposit is a valid non-negative coin (validated at creation / top-up)",
+	"types.NewDecCoinFromCoin|" + claimTotalSig:               "claim total is non-negative (checked by the caller before the split)",
+	"types.NewCoin|" + claimTotalSigFee:                       "fee = trunc(amount*rate) is non-negative for rate in [0,1] (C16 validates the rate)",
+	"types.Coin).Sub|" + claimTotalSigFee:                     "fee <= amount because the stored rate is validated within [0,1] (C16); same denom by construction",
+}
+
+const (
+	claimTotalSig    = "CalculateAmountToClaim;stored:StreamKeyPrefix.Deposit;stored:StreamKeyPrefix.DepositZeroTime;stored:StreamKeyPrefix.FlowRate;stored:StreamKeyPrefix.LastOutflowTime"
+	claimTotalSigFee = "CalculateAmountToClaim;stored:ParamsKey.ValidatorFee;stored:StreamKeyPrefix.Deposit;stored:StreamKeyPrefix.DepositZeroTime;stored:StreamKeyPrefix.FlowRate;stored:StreamKeyPrefix.LastOutflowTime"
+)
